@@ -506,6 +506,10 @@ type Ref struct {
 	CompFiles map[string]string // files finalized by a file-writing component (FileSplitter parts): path -> complete content
 }
 
+// refTags: tags carried by a path in the reference evaluation under way (a tagger puts them on the paths it
+// consumes, task outputs inherit their inputs'); used for the default output names, which contain them
+var refTags = map[string]map[string]string{}
+
 func expandPattern(pat string, proc string, ins map[string]string, params map[string]string) string {
 	if strings.HasPrefix(pat, "default:") {
 		// no SetOut: the documented default name = base names of the inputs (in-port names sorted),
@@ -527,6 +531,18 @@ func expandPattern(pat string, proc string, ins map[string]string, params map[st
 		sort.Strings(names)
 		for _, k := range names {
 			pcs = append(pcs, k+"_"+params[k])
+		}
+		// task tags are named <in-port>.<tag>
+		tnames, tvals := []string{}, map[string]string{}
+		for _, port := range ports {
+			for k, v := range refTags[ins[port]] {
+				tnames = append(tnames, port+"."+k)
+				tvals[port+"."+k] = v
+			}
+		}
+		sort.Strings(tnames)
+		for _, k := range tnames {
+			pcs = append(pcs, k+"_"+tvals[k])
 		}
 		pcs = append(pcs, strings.TrimPrefix(pat, "default:"))
 		return strings.Join(pcs, ".")
@@ -569,6 +585,7 @@ func (w *WSpec) reference() *Ref { return w.referencePre(nil) }
 // referencePre: reference evaluation with pre-existing files (path -> content). A task one
 // of whose outputs pre-exists is not executed; pre-existing bytes propagate downstream.
 func (w *WSpec) referencePre(pre map[string]string) *Ref {
+	refTags = map[string]map[string]string{}
 	r := &Ref{ByKey: map[string]*RefTask{}, Files: map[string]string{}, Emit: map[string][]string{}, Ran: map[string]bool{}, OrderOK: map[string]bool{}, DirOuts: map[string][]string{}, CompFiles: map[string]string{}}
 	if len(w.RunTo) > 0 {
 		r.Ran = w.upstreamClosure(w.RunTo)
@@ -660,6 +677,14 @@ func (w *WSpec) referencePre(pre map[string]string) *Ref {
 			case "tagger":
 				r.Emit[p.Name+".out"] = inStream["in"]
 				r.OrderOK[p.Name+".out"] = orderOK
+				for _, path := range inStream["in"] {
+					nt := map[string]string{}
+					for k, v := range refTags[path] {
+						nt[k] = v
+					}
+					nt[p.TagKey] = filepath.Base(path)
+					refTags[path] = nt
+				}
 			case "splitter":
 				// one line per part (+ the trailing part FileSplitter always writes after the last line)
 				for _, in := range inStream["file"] {
@@ -755,6 +780,17 @@ func (w *WSpec) referencePre(pre map[string]string) *Ref {
 					t.Key = taskKey(p.Name, t.Ins, t.Params)
 					for _, o := range p.Outs {
 						path := normPath(expandPattern(o.Pattern, p.Name, t.Ins, t.Params))
+						if ot := refTags[path]; ot == nil {
+							nt := map[string]string{}
+							for _, in := range t.Ins {
+								for k, v := range refTags[in] {
+									nt[k] = v
+								}
+							}
+							if len(nt) > 0 {
+								refTags[path] = nt
+							}
+						}
 						t.Outs[o.Name] = path
 						if !o.Stream && p.DirOut {
 							r.Files[path+"/part1"] = contentOf(p.Name, o.Name+"/part1", inContent, t.Params)
